@@ -77,15 +77,19 @@ def repeated(rep):
     for q, attr in (("SynReactor.mappings", "_mappings"), ("SynReactor.its_list", "_its"), ("SynReactor.smarts_list", "_smarts"),
                     ("SynReactor.graph", "_graph"), ("SynReactor.rule", "_rule")):
         fi = rep.f(SR, q)
+        from ..facts import returns_of
+        pm = parent_map(fi.node)
         top = [st for st in fi.node.body if not (isinstance(st, ast.Expr) and isinstance(st.value, ast.Constant))]
-        ok = len(top) == 2 and isinstance(top[0], ast.If) and norm(top[0].test) == f"self.{attr} is None" and not top[0].orelse \
-            and isinstance(top[1], ast.Return) and norm(top[1].value) == f"self.{attr}"
+        writes = [n for n in walk_local(fi.node) if isinstance(n, ast.Assign) and any(norm(t) == f"self.{attr}" for t in n.targets)]
+        # `if self.x is None: compute` + `return self.x`, or the early-return spelling `if self.x is not None: return self.x` + compute + return:
+        # every return hands out the stored value, and whatever computes it runs only while the slot is still unset
+        rets_ = returns_of(fi.node)
+        ok = bool(rets_) and all(r_.value is not None and norm(r_.value) == f"self.{attr}" for r_ in rets_) and bool(writes) \
+            and all(any(norm(t) == f"self.{attr} is None" and s for t, s in guards_of(pm, w, fi.node, early=True)) for w in writes)
         rep.ob("O5.3", "CACHE", fi, ok, top[0].test if top and isinstance(top[0], ast.If) else q,
                f"`{q.split('.')[1]}` is computed once behind `self.{attr} is None` and the stored value is returned (a repeated call cannot differ)", node=fi.node)
         # all writes to the cache attribute are inside the guard
-        pm = parent_map(fi.node)
-        writes = [n for n in walk_local(fi.node) if isinstance(n, ast.Assign) and any(norm(t) == f"self.{attr}" for t in n.targets)]
-        okw = all(any(norm(t) == f"self.{attr} is None" and s for t, s in guards_of(pm, w, fi.node)) for w in writes) and bool(writes)
+        okw = all(any(norm(t) == f"self.{attr} is None" and s for t, s in guards_of(pm, w, fi.node, early=True)) for w in writes) and bool(writes)
         rep.ob("O5.3", "CACHE", fi, okw, f"{len(writes)} write(s) to self.{attr}", "the cached value is written only while it is still unset", node=fi.node)
     # other methods never reset the caches
     cls = rep.repo.cls(SR, "SynReactor")
